@@ -92,6 +92,9 @@ def body(r, opts, depth, in_quote=False):
 
 
 def braced(r, opts):
+    if opts.big and r.random() < opts.big:
+        # a long value (beyond 256 / 4096 characters), e.g. an abstract
+        return "{" + " ".join(r.choice(["lorem", "ipsum", "{Dolor}", "sit,", "amet = x", "é"]) for _ in range(r.choice([60, 300, 1200]))) + "}"
     return "{" + _no_trailing_backslash(_defuse(body(r, opts, 1))) + "}"
 
 
@@ -120,7 +123,7 @@ def key(r, used, pool=None, prefix=""):
     if pool is not None:
         return r.choice(pool)
     while True:
-        k = prefix + "".join(r.choice(KEYCH) for _ in range(r.randint(1, 8)))
+        k = prefix + "".join(r.choice(KEYCH) for _ in range(r.randint(1, 8) if r.random() < 0.99 else r.randint(257, 300)))
         if r.random() < .1:
             k += r.choice(["é", "中", "ß", "İ", "ſ", "ﬁ"])
         if k not in used and not OPENER.search(k + "{"):
@@ -202,7 +205,7 @@ def document(r, opts=None):
     prev_free = True   # two free texts are never adjacent; also none directly at the start by chance only
     n_items = r.randint(opts.min_items, opts.max_items)
     if opts.big and r.random() < opts.big:
-        n_items = r.randint(50, 200)
+        n_items = r.randint(50, 200) if r.random() < 0.8 else r.randint(257, 320)
     made = 0
     guard = 0
     while made < n_items and guard < 50 + 3 * n_items:
